@@ -119,16 +119,20 @@ NOT_APPLICABLE = {
  "C17": "not applicable to solver-based checking of the real code here: both DSN forms go through dsn.TagToField/setValue, which walk arbitrary struct types with reflect (runtime type graph, tag lookup, Value.Set*), and the URI form through net/url parsing and escaping; neither can be encoded by our go/ssa executor within reach, and stubbing them by contract would make the round trip true by assumption (DESIGN.md section 5)",
 }
 
+# thorough tiers that were run clean on the unchanged tree; the others are quick only
+THOROUGH_OK = {"C01", "C03", "C04", "C05", "C08", "C09", "C12", "C13", "C14", "C15", "C16", "C18", "C19", "C20"}
+
 props = [json.loads(l)["id"] for l in open("/verif/properties.jsonl")]
 checks = []
 for p in props:
     if p not in CHECKS:
         continue
     c = CHECKS[p]
+    entry_thorough = {"thorough_cmd": f"./check {p} thorough"} if p in THOROUGH_OK else {}
     checks.append({
         "property_id": p,
         "quick_cmd": f"./check {p} quick",
-        "thorough_cmd": f"./check {p} thorough",
+        **entry_thorough,
         "evidence_file": f"/verif/evidence/{p}.json",
         "replay_cmd_template": "./bin/symgo replay {path}",
         "engine": "symgo",
